@@ -47,6 +47,40 @@ func c16(c *Ctx) {
 		}
 	})
 
+	c.Rule("C16.R7", "a request waiting for the sender can still be cancelled: a backend hands its stream to the shared Sender in a select that also watches Done() of the request's context (a plain send blocks the flush, and its callback, for as long as the sender's queue is full)", 2, func(r *Rule) {
+		n := 0
+		for _, fn := range impls {
+			for _, g := range WithAnon(fn) {
+				eachInstr(g, func(in ssa.Instruction) {
+					switch x := in.(type) {
+					case *ssa.Send:
+						if strings.HasSuffix(pathOf(x.Chan), "sender.Sink") {
+							n++
+							r.Check("sink-send:cancellable:"+FuncName(g), false, x.Pos(), "the stream is handed to the sender with a plain (uncancellable) send")
+						}
+					case *ssa.Select:
+						isSink, hasDone := false, false
+						for _, st := range x.States {
+							if st.Dir == types.SendOnly && strings.HasSuffix(pathOf(st.Chan), "sender.Sink") {
+								isSink = true
+							}
+							if st.Dir == types.RecvOnly {
+								if cl, ok := st.Chan.(*ssa.Call); ok && cl.Call.IsInvoke() && cl.Call.Method.Name() == "Done" && paramIndex(fn, cl.Call.Value) == 1 {
+									hasDone = true
+								}
+							}
+						}
+						if isSink {
+							n++
+							r.Check("sink-send:cancellable:"+FuncName(g), hasDone && x.Blocking, x.Pos(), "the stream is handed to the sender in a blocking select that also waits for ctx.Done()")
+						}
+					}
+				})
+			}
+		}
+		r.Check("sink-send:sites", n >= 2, token.NoPos, fmt.Sprintf("%d hand-overs to a Sender", n))
+	})
+
 	c.Rule("C16.R2", "sender streams: after a stream's callback is called the stream is dropped before the next loop iteration, return or callback; held and queued streams are completed at shutdown", 6, func(r *Rule) {
 		run := w.Func("pkg/backends/sender", "(*Sender).Run")
 		inner := w.Func("pkg/backends/sender", "(*Sender).innerRun")
@@ -574,6 +608,105 @@ func c16(c *Ctx) {
 			r.Check("innerRun:write-error-tested", tested, call.Pos(), "the error of conn.Write is tested")
 		}
 		r.Check("innerRun:write-sites", nw >= 1, inner.Pos(), fmt.Sprintf("%d conn.Write sites", nw))
+		// the errors recorded for a stream stay with it across a reconnect: the list innerRun gives to the
+		// callback starts from the list Run accumulated (a failed write followed by a successful dial re-enters
+		// innerRun with the held stream - its earlier failure must still be reported)
+		var errsParam *ssa.Parameter
+		for _, p := range inner.Params {
+			if sl, ok := p.Type().Underlying().(*types.Slice); ok && sl.Elem().String() == "error" {
+				errsParam = p
+			}
+		}
+		okCarry := false
+		eachInstr(inner, func(in ssa.Instruction) {
+			if _, ok := isCbCall(in); !ok || errsParam == nil {
+				return
+			}
+			args := in.(ssa.CallInstruction).Common().Args
+			if len(args) == 0 {
+				return
+			}
+			seen := map[ssa.Value]bool{}
+			var leaf func(v ssa.Value)
+			leaf = func(v ssa.Value) {
+				if seen[v] {
+					return
+				}
+				seen[v] = true
+				switch x := v.(type) {
+				case *ssa.Phi:
+					for _, e := range x.Edges {
+						leaf(e)
+					}
+				case *ssa.Call:
+					if isCall(x, "builtin append") {
+						leaf(x.Call.Args[0])
+					}
+				case *ssa.Parameter:
+					if x == errsParam {
+						okCarry = true
+					}
+				}
+			}
+			leaf(args[len(args)-1])
+		})
+		okPass := false
+		for _, cl := range callsIn(run) {
+			if staticCallee(cl) != inner || errsParam == nil {
+				continue
+			}
+			for i, p := range inner.Params {
+				if p == errsParam && i < len(cl.Common().Args) {
+					// the argument is the variable that takes innerRun's returned list (so the list lives on
+					// from one connection to the next)
+					isRet := func(v ssa.Value) bool {
+						if ap, isAp := v.(*ssa.Call); isAp && isCall(ap, "builtin append") {
+							v = ap.Call.Args[0]
+						}
+						ex, ok := v.(*ssa.Extract)
+						if !ok {
+							return false
+						}
+						c2, ok := ex.Tuple.(*ssa.Call)
+						return ok && staticCallee(c2) == inner && ex.Type().String() == "[]error"
+					}
+					switch a := cl.Common().Args[i].(type) {
+					case *ssa.Phi:
+						seen := map[ssa.Value]bool{}
+						var walk func(v ssa.Value)
+						walk = func(v ssa.Value) {
+							if seen[v] {
+								return
+							}
+							seen[v] = true
+							if isRet(v) {
+								okPass = true
+							}
+							switch x := v.(type) {
+							case *ssa.Phi:
+								for _, e := range x.Edges {
+									walk(e)
+								}
+							case *ssa.Call:
+								if isCall(x, "builtin append") {
+									walk(x.Call.Args[0])
+								}
+							}
+						}
+						walk(a)
+					case *ssa.UnOp:
+						if al, isAl := a.X.(*ssa.Alloc); isAl && a.Op == token.MUL {
+							for _, ref := range *al.Referrers() {
+								if st, isSt := ref.(*ssa.Store); isSt && isRet(st.Val) {
+									okPass = true
+								}
+							}
+						}
+					}
+				}
+			}
+		}
+		r.Check("innerRun:held-stream-keeps-its-errors", okCarry && okPass, inner.Pos(), fmt.Sprintf("the callback's error list in innerRun starts from the list Run passes in (errs parameter reaches the callback: %v; Run passes its errs: %v)", okCarry, okPass))
 	})
 
 	c.Rule("C16.R3", "flusher: WaitGroup.Add(len(backends)) matches one SendMetricsAsync per backend, each callback calls Done exactly once, flushData waits for them", 5, func(r *Rule) {
